@@ -102,6 +102,10 @@ def make_job_fn(check):
                 continue
             if out.status == "skipped":
                 stats["skipped"][out.skipped] += 1
+                for v in viols:
+                    stats["clauses"][v["clause"]] += 1
+                    v.update({"workload": wl, "config": cfg, "decisions": dec.log, "index": j, "variant": k, "run_seed": rs})
+                    stats["violations"].append(v)
                 continue
             stats["digests"].append(out.events_digest[:12] + ":" + (exact_digest(out.summary)[:12] if out.status == "ok" else str(out.exc_class)))
             for kk, vv in (out.fired or {}).items():
